@@ -653,6 +653,16 @@ func c03iRunCase(line string) string {
 			h.monStep(ev, nb, eb, a4, a6)
 			o := append([]string(nil), h.out...)
 			sort.Strings(o)
+			// the accept runs the pending v4 and v6 packets in two goroutines: whether the v6 side already sees the
+			// v4 binding (and publishes a second Active lifecycle) depends on the schedule - count lifeA once per step
+			dd := o[:0]
+			for k, t := range o {
+				if k > 0 && t == o[k-1] && strings.HasSuffix(t, "lifeA") {
+					continue
+				}
+				dd = append(dd, t)
+			}
+			o = dd
 			steps = append(steps, strings.Join(o, ",")+"|"+h.status())
 		}
 		mon := "ok"
